@@ -10,7 +10,7 @@ import tempfile
 from ..mon import Reach
 from ..result import Budget, digest, safe
 from .. import agraph
-from ..stream import gen_case, Built, TooExpensive
+from ..stream import gen_case, Built, TooExpensive, cpu_budget, CASE_CPU_S
 from ..gen_lang import Cfg
 from ..gen_model import MCfg
 from . import C09
@@ -31,7 +31,8 @@ META = {
         'quick': {'format:json': 100, 'format:yml': 100, 'with-model': 100, 'without-model': 150, 'class:false-flag': 100,
                   'class:tags': 100, 'class:attackers>=2': 50, 'class:name-sharing-attackers': 20, 'class:attacker-id-0': 30,
                   'class:entry-point-not-reached': 30, 'class:pruned': 50, 'class:extras': 50, 'nodes-compared': 3000,
-                  'class:viable-ne-necessary': 50, 'class:serialised-before-last-change': 50},
+                  'class:viable-ne-necessary': 50, 'class:serialised-before-last-change': 50,
+                  'second-load-after-in-place-edit': 200, 'second-round-trip-after-model-edit': 30},
         'thorough': {'format:json': 15000, 'format:yml': 15000, 'with-model': 10000, 'without-model': 10000,
                      'class:name-sharing-attackers': 1000, 'nodes-compared': 400000},
     },
@@ -195,9 +196,51 @@ def _check_case(case, res, count=True):
             g2 = AttackGraph.load_from_file(path, model if use_model else None)
         except Exception as exc:
             return ('attackgraph.load:raised-%s' % type(exc).__name__, 'load_from_file(.%s, model=%s) raised %r' % (case['fmt'], use_model, exc))
+        f = compare(g, g2, model if use_model else None, res, count)
+        if f:
+            return f
+        # edit the loaded graph in place, then load the same file again: the second load must not see the edits
+        for n in g2.nodes:
+            if isinstance(n.tags, list):
+                n.tags.append('edited-after-load')
+            if isinstance(n.extras, dict):
+                n.extras['edited-after-load'] = True
+        try:
+            g3 = AttackGraph.load_from_file(path, model if use_model else None)
+        except Exception as exc:
+            return ('attackgraph.load:raised-%s' % type(exc).__name__, 'second load_from_file raised %r' % (exc,))
+        if count:
+            res.count('second-load-after-in-place-edit')
+        f = compare(g, g3, model if use_model else None, res, False)
+        if f:
+            return (f[0] + ':second-load', 'second load of the same file after the first loaded graph was edited in place: ' + f[1])
+        # the model is edited (an asset replaced by another one: same asset count), the graph regenerated, saved and loaded again
+        if use_model and start[0] == 'case' and case.get('edit_model') and model.assets:
+            from maltoolbox.attackgraph import AttackGraph as AG
+            old = model.assets[case['edit_model'] % len(model.assets)]
+            typ = str(old.type)
+            try:
+                model.remove_asset(old)
+                new = getattr(world.graphs[0]['built'].factory.ns, typ)(name='replacement asset')
+                model.add_asset(new)
+                with cpu_budget(CASE_CPU_S):
+                    g4 = AG(world.graphs[0]['built'].lang_graph, model)
+                p4 = os.path.join(d, 'g4.' + case['fmt'])
+                g4.save_to_file(p4)
+                g5 = AG.load_from_file(p4, model)
+            except TooExpensive:
+                return None
+            except Exception as exc:
+                return ('attackgraph.load:raised-%s:after-model-edit' % type(exc).__name__,
+                        'after replacing an asset of the model, regenerating, saving and loading with the model: %r' % (exc,))
+            if count:
+                res.count('second-round-trip-after-model-edit')
+            f = compare(g4, g5, model, res, False)
+            if f:
+                return (f[0] + ':after-model-edit', 'second round trip with the same (edited) Model object: ' + f[1])
     finally:
         shutil.rmtree(d, ignore_errors=True)
-    return compare(g, g2, model if use_model else None, res, count)
+    return None
 
 
 check_case = safe(_check_case)
@@ -234,7 +277,7 @@ def gen_case10(rng):
         else:
             hist.append(['remove_attacker', rng.randrange(10)])
     return {'start': start, 'history': hist, 'fmt': rng.choice(['json', 'yml']), 'with_model': rng.random() < 0.5,
-            'deco_seed': rng.randrange(10 ** 9)}
+            'deco_seed': rng.randrange(10 ** 9), 'edit_model': rng.randrange(1, 1000) if rng.random() < 0.5 else None}
 
 
 def run(rng, res, tier, shard, nshards):
